@@ -116,7 +116,7 @@ fn rpc_flow(lo: usize, hi: usize, inside_signature: bool) {
 
 //# harness: c11_http_flow_cut_8
 //# props: C11
-//# tier: thorough
+//# tier: extended
 //# timeout: 1200
 //# encodes: proto::repl (TCP mode, control block), proto::http::repl, http_parse, smack::Smack::search_next
 //# bounds: stream "GET /t HTTP/1.v CRLF CRLF" (19 bytes; target byte and version digit symbolic) on a fresh flow, cut into two segments at position 8; compared with the unsegmented stream
@@ -135,7 +135,7 @@ fn c11_http_flow_cut_8() {
 
 //# harness: c11_http_flow_cut_17
 //# props: C11
-//# tier: thorough
+//# tier: extended
 //# timeout: 1200
 //# encodes: proto::repl (TCP mode, control block), proto::http::repl, http_parse, smack::Smack::search_next
 //# bounds: stream "GET /t HTTP/1.v CRLF CRLF" (19 bytes; target byte and version digit symbolic) on a fresh flow, cut into two segments at position 17; compared with the unsegmented stream
@@ -154,7 +154,7 @@ fn c11_http_flow_cut_17() {
 
 //# harness: c11_http_flow_cut_inside_signature
 //# props: C11
-//# tier: thorough
+//# tier: extended
 //# timeout: 1200
 //# encodes: proto::repl (TCP mode, control block), proto::http::repl, http_parse, smack::Smack::search_next
 //# bounds: stream "GET /t HTTP/1.v CRLF CRLF" (19 bytes; target byte and version digit symbolic) on a fresh flow, cut into two segments at position 2; compared with the unsegmented stream
@@ -174,7 +174,7 @@ fn c11_http_flow_cut_inside_signature() {
 
 //# harness: c11_rpc_flow_cut_30
 //# props: C11
-//# tier: thorough
+//# tier: extended
 //# timeout: 1200
 //# encodes: proto::repl (TCP mode, control block), proto::rpc::repl_tcp, rpc_parse, build_repl
 //# bounds: 44-byte ONC-RPC NULL call over TCP (XID and program low byte symbolic, XID high byte non-zero) on a fresh flow, cut into two segments at position 30; compared with the unsegmented stream
@@ -190,7 +190,7 @@ fn c11_rpc_flow_cut_30() {
 
 //# harness: c11_rpc_flow_cut_inside_signature
 //# props: C11
-//# tier: thorough
+//# tier: extended
 //# timeout: 1200
 //# encodes: proto::repl (TCP mode, control block), proto::rpc::repl_tcp, rpc_parse, build_repl
 //# bounds: 44-byte ONC-RPC NULL call over TCP (XID and program low byte symbolic, XID high byte non-zero) on a fresh flow, cut into two segments at position 12; compared with the unsegmented stream
